@@ -8,11 +8,20 @@ by the Lean driver (`gobuild`, `pybuild`), which must predict builder.internal, 
 builder.errors and the outcome of Build().  Oracle: the property itself on the real outcomes
 (harness/c09_stream.go: reference interpreter on JSON documents).
 """
+import atexit, hashlib
 import collections, json, os, re, sys, time
 import verifkit.core as core
 from verifkit.core import *
 
 PID = "C09"
+
+# a private copy of the tree (VERIF_REPO) gets its own harness binary: two runs against different trees at the
+# same time must not overwrite each other's binary (removed again when the run ends)
+TAG = "c09" if core.REPO == "/repo" else "c09-" + hashlib.sha1(core.REPO.encode()).hexdigest()[:8]
+if TAG != "c09":
+    atexit.register(lambda: [os.path.exists(f) and os.remove(f) for f in
+                             (os.path.join(core.BIN, "verifharness-" + TAG), os.path.join(core.WORK, "overlay-verifharness-%s.json" % TAG))])
+
 FILES = HARNESS_BASE + ["lab_*.go", "src_*.go", "vir_builders.go", "c09_*.go"]
 CORPUS = os.path.join(VERIF, "corpus", "C09.tsv")
 CORPUS_PY = os.path.join(VERIF, "corpus", "C09py.tsv")
@@ -101,6 +110,13 @@ def run_stream(hb, stream, **kw):
                 c.id, c.fmt = p[1], p[2].split("=", 1)[1]
                 c.veneers, c.defs = r[2], r[3]
                 cases[c.id] = c
+            elif r[1].startswith("notbuilt "):
+                # the generated package of this case does not build: one failing run per diagnostic
+                x = Run()
+                q = r[1].split(" ")
+                x.case, x.lang, x.builder, x.calls = cases[q[1]], q[2], "-", "(build (ctor))"
+                x.req, x.impl, x.model, x.verdict = r[1] + " " + r[2], "notbuilt", "notbuilt", r[2]
+                runs.append(x)
             elif r[1].startswith("skip"):
                 skips.append(r[1])
             elif r[1].startswith("stats"):
@@ -130,17 +146,46 @@ def is_known(c, text):
     return any(re.search(f["match"], text, re.S) for f in c.known)
 
 
+def diag_family(verdict):
+    """compiler diagnostic of a not-built case with the identifiers and types taken out"""
+    m = re.search(r"file=(\S+) diag=(\S+)", verdict)
+    if not m:
+        return "-"
+    d = re.sub(r"cannot_use_\S+?_\(", "cannot_use_X_(", m.group(2))
+    d = re.sub(r"_of_type_\S+?\)_as_\S+?_value", "_of_type_T)_as_U_value", d)
+    d = re.sub(r"\[\w+\]", "[T]", d)
+    d = re.sub(r"method_\S+_already_declared_at_\S+", "method_M_already_declared", d)
+    d = re.sub(r"undefined:_\w+Depth\d+", "undefined:_xDepthN", d)
+    d = re.sub(r"mismatched_types_\S+_and_", "mismatched_types_T_and_", d)
+    d = re.sub(r"_in_argument_to_\w+Converter", "_in_argument_to_XConverter", d)
+    return m.group(1) + ":" + re.sub(r"[0-9]+", "N", d)[:120]
+
+
 class Runner:
     def __init__(self, c, hb):
         self.c, self.hb = c, hb
         self.stats = collections.Counter()
         self.tags = collections.Counter()
-        self.pending, self.disagree = [], []
+        self.pending, self.disagree, self.notbuilt = [], [], []
         self.shrink_deadline = time.time() + 150
 
     def stream(self, name, stream="c09-lab", **kw):
         c, st = self.c, self.stats
         runs, skips, stats, defs_bad = run_stream(self.hb, stream, **kw)
+        # generated packages that do not compile are a code-generation defect outside this property (C02): they
+        # are counted per diagnostic, and must stay the exception (otherwise the stream observes nothing)
+        nb = [r for r in runs if r.impl == "notbuilt"]
+        runs = [r for r in runs if r.impl != "notbuilt"]
+        built, unbuilt = {r.case.id for r in runs}, {r.case.id for r in nb}
+        for r in nb:
+            st["notbuilt:" + diag_family(r.verdict)] += 1
+        st["cases_built"] += len(built)
+        st["cases_not_built"] += len(unbuilt)
+        enough = len(built) > 0 and len(unbuilt) <= 0.4 * (len(built) + len(unbuilt))
+        c.oblige("stream %s: the generated packages build (at most 40%% of the cases stop at a compiler diagnostic)" % name, enough,
+                 {"built": len(built), "not_built": len(unbuilt), "diagnostics": [r.verdict[:200] for r in nb[:3]], "skips": skips[:3]})
+        if not enough and nb:
+            self.notbuilt.append((name, nb))
         c.oblige("stream %s: every IR / builder set is accepted by the Lean readers" % name, not defs_bad, defs_bad[:5])
         for s in skips:
             st["skip:" + s.split(" ")[2]] += 1
@@ -196,6 +241,7 @@ class Runner:
 
     def shrink(self, r):
         want = " ".join(r.verdict.split(" ")[:2])
+        fam = diag_family(r.verdict) if r.impl == "notbuilt" else None     # a not-built case keeps its diagnostic while shrinking
         best = (pinned_line(r), case_text(r))
         if time.time() > self.shrink_deadline:
             return best
@@ -212,7 +258,9 @@ class Runner:
                 runs, _ = self.rerun(cands[:30], r.lang)
                 hit = None
                 for x in runs:
-                    if x.verdict.startswith(want) and x.calls != "(build (ctor))" and not is_known(self.c, case_text(x)):
+                    if fam is not None and diag_family(x.verdict) != fam:
+                        continue
+                    if x.verdict.startswith(want) and (x.calls != "(build (ctor))" or fam is not None) and not is_known(self.c, case_text(x)):
                         line = pinned_line(x)
                         if hit is None or len(line) < len(hit[0]):
                             hit = (line, case_text(x))
@@ -245,6 +293,17 @@ class Runner:
                              "builder": f[3], "calls": f[4], "impl": r.impl[:600], "model": r.model[:600], "case_text": stext,
                              "pinned_line": line, "lang": r.lang, "how": "./check C09 --replay <this file>"})
                 reported += 1
+        for name, nb in self.notbuilt:
+            # a stream whose packages mostly do not compile: the most frequent diagnostic, on its smallest case
+            fam = collections.Counter(diag_family(x.verdict) for x in nb).most_common(1)[0][0]
+            r = min((x for x in nb if diag_family(x.verdict) == fam), key=lambda x: len(pinned_line(x)))
+            self.shrink_deadline = max(self.shrink_deadline, time.time() + 40)
+            line, stext = self.shrink(r)
+            f = line.split("\t")
+            c.violation({"kind": "generated-code-does-not-build", "stream": name, "oracle": r.verdict, "format": f[0], "defs": f[1], "veneers": f[2],
+                         "builder": f[3], "calls": f[4], "n_cases_not_built": len({x.case.id for x in nb}), "case_text": stext,
+                         "pinned_line": line, "lang": r.lang, "how": "./check C09 --replay <this file>"})
+            reported += 1
         if self.disagree and not reported:
             name, r, text = self.disagree[0]
             c.violation({"kind": "correspondence-broken", "stream": name,
@@ -265,13 +324,15 @@ def main():
         "too (C10's subject), read back from the generated constructors; Validate() is C08's model (lean/Cog/Sem/GoValidate.lean)",
         "the reflective lab extension (harness/c09_rt.go) reads builder.internal / builder.errors through reflect+unsafe; encoding/json; Go toolchain",
         "the oracle's reference interpreter (harness/c09_stream.go) works on JSON documents up to omitempty",
+        "cases whose generated package does not compile (code-generation defects, property C02) show nothing about this property: they are counted per "
+        "compiler diagnostic (distribution.stats notbuilt:*), and every stream must build at least 60% of its cases, otherwise the smallest such case is reported",
     ]
-    hb, err = build_go("verifharness", "harness", files=FILES, tag="c09")
+    hb, err = build_go("verifharness", "harness", files=FILES, tag=TAG)
     for _ in range(2):
         # another check trimming the shared Go build cache while we link is not a fact about cog
         if hb is None and "go-build" in err:
             time.sleep(3)
-            hb, err = build_go("verifharness", "harness", files=FILES, tag="c09")
+            hb, err = build_go("verifharness", "harness", files=FILES, tag=TAG)
     c.oblige("harness + lab build against the working tree of %s" % core.REPO, hb is not None, err)
     thms = theorem_names()
     c.oblige("Props/C09.lean states theorems", len(thms) >= 5, thms)
@@ -295,6 +356,9 @@ def main():
             bad = bad or x.verdict.startswith("FAIL") or (not outside_model(x.model) and x.model != x.impl)
         for s in skips:
             print("replay: case not usable:", s[:400])
+        if not runs and not skips and rp.get("builder") == "-":
+            print("replay: the generated package of this case builds (the recorded failure was a compiler diagnostic)")
+            sys.exit(0)
         sys.exit(1 if bad or not runs else 0)
 
     quick = c.tier == "quick"
